@@ -142,6 +142,12 @@ func genC11(t *rapid.T) (SetCase, map[string]bool) {
 	var set TSet
 	// build the chain from the innermost template outwards
 	var nested *S
+	if rapid.IntRange(0, 7).Draw(t, "innermissing") == 0 {
+		// the innermost template includes a template that does not exist, without `ignore
+		// missing`: that failure must surface even when an outer include says `ignore missing`
+		nested = &S{K: "include", E: Str("gone")}
+		g.stats["missing-template-below-an-existing-one"] = true
+	}
 	for d := depth; d >= 1; d-- {
 		name := fmt.Sprintf("inc%d", d)
 		body := g.includedBody(name, nested)
